@@ -10,6 +10,8 @@ def gen_sim_cfg(frng, n_tasks, fault_free=False):
            'inq_cap': frng.choice((2, 4, 8, 64)),
            'cpu_count': 4,
            'base_ms': frng.choice((5.0, 10.0, 20.0)),
+           # simulated workers run in-process, or as real forked processes parked on a pipe
+           'workers': 'forked' if frng.random() < 0.3 else 'inproc',
            'faults': {}}
     if mode == 'pct':
         horizon = max(4, 4 * n_tasks)
@@ -49,6 +51,10 @@ def simpler_sim_cfgs(cfg):
     if cfg.get('bg_steps'):
         c = dict(cfg)
         c['bg_steps'] = 0
+        yield c
+    if cfg.get('workers') == 'forked':
+        c = dict(cfg)
+        c['workers'] = 'inproc'
         yield c
     if cfg.get('mode') != 'fifo':
         c = dict(cfg)
